@@ -14,7 +14,7 @@
    KEq   Real64 run vs Float64 run of a routine without a closed model: same values.
    KJac / KHes  the Jacobian / Hessian helpers on a catalogue of functions. *)
 From Coq Require Import List Bool Arith ZArith QArith Qabs Floats.
-From ADV Require Import Base.Num Base.Corr C06.Model.
+From ADV Require Import Base.Num Base.Corr C06.Model C06.Model32.
 Import ListNotations.
 Local Open Scope nat_scope.
 
@@ -65,14 +65,19 @@ Definition qmaxabs (l : list float) : Q :=
 
 Definition slot := (float * list float * list (list float))%type.
 
-Definition slot_ok (k o : nat) (sq : bool) (tol : Q) (j : jet float) (s : slot) : bool :=
+Definition slot_ok_gen (e : float -> float -> bool) (k o : nat) (sq : bool) (tol : Q) (j : jet float) (s : slot) : bool :=
   let '(v, g, h) := s in
-  feqb (jv j) v
-  && list_eqb feqb (map (gd NumDFg j) (seq 0 k)) g
+  e (jv j) v
+  && list_eqb e (map (gd NumDFg j) (seq 0 k)) g
   && (if 2 <=? o then
-        list_eqb (list_eqb (if sq then closeb tol else feqb))
+        list_eqb (list_eqb (if sq then closeb tol else e))
                  (map (fun i => map (fun q => gh NumDFg j i q) (seq 0 k)) (seq 0 k)) h
       else true).
+Definition slot_ok := slot_ok_gen feqb.
+(* recycled buffers: an output entry that is a constant of the run can come back ACTIVE with all-zero
+   derivative slots (Reset / SetFloat64 keep Order and N of a recycled scalar), and 0 * v10 + 0 * v01 is -0 for
+   negative factors: same numbers, the sign of a zero slot is not compared *)
+Definition slot_ok_z := slot_ok_gen veqb.
 
 (* the functions the Jacobian / Hessian helpers are exercised on (Go twins in harness/c06/funcs.go) *)
 Section Funcs.
@@ -101,7 +106,22 @@ Inductive kase :=
 | KEq (tag : nat) (a b : list float)
 | KF (kind n : nat) (sym : bool) (tol : Q) (vals aux : list float) (grads : list (list float))
 | KJac (fid : nat) (x : list float) (jac : list (list float)) (xord : nat)
-| KHes (fid : nat) (x : list float) (hes : list (list float)) (xord : nat).
+| KHes (fid : nat) (x : list float) (hes : list (list float)) (xord : nat)
+(* round 2: the 32 bit element types.  fast = Float32 containers, gen = Real32 containers *)
+| KV32 (p : nat) (d : list nat) (inp : list float) (fast gen : option (list float))
+| KD32 (p : nat) (d : list nat) (k o : nat) (sq : bool) (sp : list (option nat * float)) (out : option (list slot))
+(* Go ran with recycled InSitu buffers / in place; the model term is the one of the fresh run (see
+   the recycled_buffers theorems of Props.v) *)
+| KDz (p : nat) (d : list nat) (k o : nat) (sq : bool) (sp : list (option nat * float)) (out : option (list slot))
+| KD32z (p : nat) (d : list nat) (k o : nat) (sq : bool) (sp : list (option nat * float)) (out : option (list slot)).
+
+(* Float32: math.Sqrt rounded once (SQRT of cholesky_float32; the generic routines on Float32 scalars go
+   through Scalar.Sqrt = Pow(x, 0.5) as well, but the Cholesky family is the only square root reached on
+   Float32 containers by the routines replayed at 32 bit, and it takes the fast path);
+   Real32: float32(math.Pow(x, 0.5)) *)
+Definition NumXF32fast : M5.NumX float := NumXS NumDFg r32 PrimFloat.sqrt.
+Definition NumXF32gen : M5.NumX float := NumXS NumDFg r32 M5.go_pow_half.
+Definition is32 (x : float) : bool := feqb (r32 x) x.
 
 (* ---- closed formulas, in Q ---- *)
 Definition qm (n : nat) (l : list float) (i j : nat) : Q := q_of (nth (i * n + j) l 0%float).
@@ -160,6 +180,40 @@ Definition check (c : kase) : bool :=
       | Some js, Some ss =>
           let tol := (Qmake 1 67108864 * (1 + qmaxabs (flat_map (fun s => concat (snd s)) ss)))%Q in
           (length js =? length ss) && forallb (fun p => slot_ok k o sq tol (fst p) (snd p)) (combine js ss)
+      | _, _ => false
+      end
+  | KV32 p d inp fast gen =>
+      forallb is32 inp
+      && opt_eqb (list_eqb feqb) (prog_of p d float NumXF32fast (fun x => x) inp) fast
+      && opt_eqb (list_eqb feqb) (prog_of p d float NumXF32gen (fun x => x) inp) gen
+      && opt_eqb (list_eqb veqb) fast gen
+  | KD32 p d k o sq sp out =>
+      let J := prog_of p d (jet float) (NumXJS NumDFg r32 k o) (jlogS NumDFg r32 k o) (map (seed1 NumDFg k o) sp) in
+      forallb (fun e => is32 (snd e)) sp &&
+      match J, out with
+      | None, None => true
+      | Some js, Some ss =>
+          let tol := (Qmake 1 8192 * (1 + qmaxabs (flat_map (fun s => concat (snd s)) ss)))%Q in
+          (length js =? length ss) && forallb (fun p => slot_ok k o sq tol (fst p) (snd p)) (combine js ss)
+      | _, _ => false
+      end
+  | KDz p d k o sq sp out =>
+      let J := prog_of p d (jet float) (NumXJ NumDFg k o) (jlog NumDFg k o) (map (seed1 NumDFg k o) sp) in
+      match J, out with
+      | None, None => true
+      | Some js, Some ss =>
+          let tol := (Qmake 1 67108864 * (1 + qmaxabs (flat_map (fun s => concat (snd s)) ss)))%Q in
+          (length js =? length ss) && forallb (fun p => slot_ok_z k o sq tol (fst p) (snd p)) (combine js ss)
+      | _, _ => false
+      end
+  | KD32z p d k o sq sp out =>
+      let J := prog_of p d (jet float) (NumXJS NumDFg r32 k o) (jlogS NumDFg r32 k o) (map (seed1 NumDFg k o) sp) in
+      forallb (fun e => is32 (snd e)) sp &&
+      match J, out with
+      | None, None => true
+      | Some js, Some ss =>
+          let tol := (Qmake 1 8192 * (1 + qmaxabs (flat_map (fun s => concat (snd s)) ss)))%Q in
+          (length js =? length ss) && forallb (fun p => slot_ok_z k o sq tol (fst p) (snd p)) (combine js ss)
       | _, _ => false
       end
   | KEq _ a b => list_eqb veqb a b
